@@ -142,6 +142,49 @@ func genC10(out *Out, r *Rng, tier string, n int, shard int) {
 						kind = "int"
 					}
 					o["pvkind"] = kind
+					// the accessors hand out the value itself, and only the accessor of its kind succeeds
+					ev := e.VerifValue()
+					switch x := ev.(type) {
+					case *big.Int:
+						if b, err := pv.AsBigInt(); err != nil || b.Cmp(x) != 0 {
+							o["pverr"] = fmt.Sprintf("Value.AsBigInt gives %v (%v), the entry holds %v", b, err, x)
+						}
+					case int64:
+						if b, err := pv.AsInt64(); err != nil || b != x {
+							o["pverr"] = fmt.Sprintf("Value.AsInt64 gives %v (%v), the entry holds %v", b, err, x)
+						}
+					case bool:
+						if b, err := pv.AsBool(); err != nil || b != x {
+							o["pverr"] = fmt.Sprintf("Value.AsBool gives %v (%v), the entry holds %v", b, err, x)
+						}
+					case time.Time:
+						if b, err := pv.AsTime(); err != nil || !b.Equal(x) {
+							o["pverr"] = fmt.Sprintf("Value.AsTime gives %v (%v), the entry holds %v", b, err, x)
+						}
+					case string:
+						if b, err := pv.AsString(); err != nil || b != x {
+							o["pverr"] = fmt.Sprintf("Value.AsString gives %q (%v), the entry holds %q", b, err, x)
+						}
+					}
+					nOK := 0
+					if _, err := pv.AsBigInt(); err == nil {
+						nOK++
+					}
+					if _, err := pv.AsInt64(); err == nil {
+						nOK++
+					}
+					if _, err := pv.AsBool(); err == nil {
+						nOK++
+					}
+					if _, err := pv.AsTime(); err == nil {
+						nOK++
+					}
+					if _, err := pv.AsString(); err == nil {
+						nOK++
+					}
+					if nOK != 1 {
+						o["pverr"] = fmt.Sprintf("%d accessors of the Value succeed (one kind, one accessor)", nOK)
+					}
 				}
 				if herr != nil {
 					o["herr"] = herr.Error()
